@@ -60,3 +60,5 @@ SPEC['assumptions'] = ['KERNEL ONLY: decided are (1) the step "create refuses a 
                        '(File::hasBlock/deleteBlock/hasSection/deleteSection, Block::deleteSource, Source::hasSource/deleteSource, Section::hasSection/deleteSection/hasProperty/deleteProperty) resolve the handle by its id; '
                        'agreement of name / id / index lookups inside the back end, counts, creation order, order after delete and reopen are HDF5 link-table facts and NOT covered',
                        'Block::createDataFrame and the by-handle queries defined in headers (Block::has*(const X&), Group, Tag references) are not under contract']
+
+SPEC['assumptions'] = list(SPEC.get('assumptions', [])) + ['session 3: H5Group::objectName - H5Lget_name_by_idx is a ghost that answers per (index type, order): ASSUMED that libhdf5 reports the link in the order it is asked for; Block::createDataFrame - std::set<std::string>::insert and Variant::supports_type are ghosts that answer arbitrarily']
